@@ -909,6 +909,15 @@ fn load_config_from_string(cfg: &str) -> Result<SharedConfig, Error> {
             }
         }
         let addresses = addresses.unwrap_or_default();
+        /* The top level values are the defaults for router advertisements, so they have to fit. */
+        crate::radv::config::check_rdnss(
+            "dns-servers",
+            dns_servers.iter().filter(|ip| ip.is_ipv6()).count(),
+        )?;
+        crate::radv::config::check_dnssl("dns-search", &dns_search)?;
+        if let Some(url) = &captive_portal {
+            crate::radv::config::check_captive_portal("captive-portal", url)?;
+        }
         let conf = Config {
             #[cfg(feature = "dhcp")]
             dhcp: dhcp.unwrap_or_default(),
